@@ -20,4 +20,5 @@ a82f9f4 C20
 4ac3266 C20
 32dce03 C20
 85aecbd C20
+b5b2aae C19
 LIST
